@@ -3,7 +3,7 @@ from __future__ import annotations
 
 from ..driver import Knockout, sub_nth, sub_once
 from ..report import Ctx
-from ..rules import solvers
+from ..rules import shapes, solvers
 from ..rules.solvers import EVO, TRS
 
 EXPLANATION = (
@@ -24,6 +24,7 @@ def run(ctx: Ctx) -> None:
     solvers.rule_twoqubit(ctx)
     solvers.rule_move_filters(ctx)
     solvers.rule_frontinsert(ctx)
+    shapes.rule_conversion_ops(ctx)
     solvers.rule_result_provenance(ctx, TRS, "TimeReversedSolver.solve", False)
     ctx.floor("own.twoqubit", 6)
     ctx.floor("typestate.fixed", 4)
@@ -32,6 +33,7 @@ def run(ctx: Ctx) -> None:
 
 
 KNOCKOUTS = [
+    Knockout("conversion-ops-emitter", "graphiq/backends/stabilizer/functions/local_cliff_equi_check.py", sub_once('            operations_list.append(ops_list[op_index](register=gate[1], reg_type="p"))', '            operations_list.append(ops_list[op_index](register=gate[1], reg_type="e"))'), "move.filters", "str_to_op"),
     Knockout("C5-photon-control", EVO,
              sub_once("            control=circuit.dag.edges[edge0][\"reg\"],\n            control_type=\"e\",\n            target=circuit.dag.edges[edge1][\"reg\"],\n            target_type=\"e\",",
                       "            control=circuit.dag.edges[edge0][\"reg\"],\n            control_type=\"p\",\n            target=circuit.dag.edges[edge1][\"reg\"],\n            target_type=\"e\","),
